@@ -56,6 +56,11 @@ pub struct Inner {
   progress: u64,
   /// times a thread found a real lock busy
   pub real_blocks: u64,
+  /// kernel thread ids of the workers (for the stall check)
+  tids: Vec<u32>,
+  /// times the running thread was found asleep in the kernel outside any schedule point (blocked on
+  /// something no hook announces) and the turn was handed to another thread
+  pub stalls: u64,
   /// sites at which a thread has ever reported LockBlocked: the schedule point in front of such a
   /// probe is not progress (a blocked thread re-probing must not re-enable other blocked threads,
   /// or the space of schedules is infinite)
@@ -90,6 +95,8 @@ impl Sched {
         points: 0,
         progress: 0,
         real_blocks: 0,
+        tids: vec![0; threads],
+        stalls: 0,
         probe_sites: vec![],
       }),
       cv: Condvar::new(),
@@ -177,7 +184,13 @@ impl Sched {
 
   /// a worker waits for its first turn
   pub fn begin(&self, me: usize) {
-    let g = self.m.lock().unwrap();
+    let tid = std::fs::read_link("/proc/thread-self")
+      .ok()
+      .and_then(|p| p.file_name().map(|n| n.to_string_lossy().to_string()))
+      .and_then(|s| s.parse::<u32>().ok())
+      .unwrap_or(0);
+    let mut g = self.m.lock().unwrap();
+    g.tids[me] = tid;
     let _g = self.wait_turn(g, me);
   }
 
@@ -222,6 +235,15 @@ impl Sched {
         g.status[me] = St::BlockedReal(now);
       }
     }
+    if g.current != me {
+      // this thread had stalled outside a schedule point and the turn went elsewhere meanwhile
+      // (see `wait_all_done`): it is not its turn to decide, it queues up again
+      let mut g = self.wait_turn(g, me);
+      if matches!(g.status[me], St::Wants(_) | St::BlockedReal(_)) {
+        g.status[me] = St::Ready;
+      }
+      return;
+    }
     Self::decide(&mut g, me, at_hook);
     let mut g = self.wait_turn(g, me);
     // we run again: a wanted (modelled) lock is free now and will be taken before the next
@@ -242,15 +264,75 @@ impl Sched {
       g.locks.remove(&k);
       g.violations.push(format!("harness: t{me} finished while recorded as holding lock {k:#x}"));
     }
-    Self::decide(&mut g, me, false);
+    if g.current == me || g.current == NONE {
+      Self::decide(&mut g, me, false);
+    } else if g.status.iter().all(|s| *s == St::Done) {
+      g.all_done = true;
+    }
     self.cv.notify_all();
   }
 
   /// wait until every thread is done (or the run was aborted); returns false when aborted
+  ///
+  /// While waiting, the driver watches for a *stall*: the thread whose turn it is passes no schedule point
+  /// for a while and sleeps in the kernel.  Then it is blocked on something no hook announces (a lock the
+  /// hooks do not know, held by a parked thread).  The turn goes to another thread - the stalled one
+  /// resumes by itself once whatever it waits for is released and queues up at its next schedule point.
+  /// Until then two threads may really run at once, which is a legitimate execution too.  If nobody else
+  /// can run either, every unfinished thread is blocked: a real deadlock.
   pub fn wait_all_done(&self) -> bool {
     let mut g = self.m.lock().unwrap();
+    let (mut seen_points, mut seen_current, mut quiet_polls) = (g.points, g.current, 0u32);
     while !g.all_done && !g.aborted {
-      g = self.cv.wait(g).unwrap();
+      let (g2, _) = self.cv.wait_timeout(g, std::time::Duration::from_millis(50)).unwrap();
+      g = g2;
+      if g.all_done || g.aborted {
+        break;
+      }
+      if g.points != seen_points || g.current != seen_current {
+        (seen_points, seen_current, quiet_polls) = (g.points, g.current, 0);
+        continue;
+      }
+      quiet_polls += 1;
+      let cur = g.current;
+      if quiet_polls < 6 || cur == NONE || g.status[cur] == St::Done {
+        continue;
+      }
+      // quiet for >= 300 ms: is the running thread asleep in the kernel?
+      let asleep = std::fs::read_to_string(format!("/proc/self/task/{}/stat", g.tids[cur]))
+        .ok()
+        .and_then(|s| s.rsplit_once(") ").map(|(_, rest)| rest.starts_with('S') || rest.starts_with('D')))
+        .unwrap_or(false);
+      if !asleep {
+        quiet_polls = 0;
+        continue;
+      }
+      // somebody else who can make progress?
+      let others: Vec<usize> = Self::enabled(&g).into_iter().filter(|t| *t != cur).collect();
+      if others.is_empty() && quiet_polls < 200 {
+        // nobody to hand the turn to: keep watching; only ten seconds of unbroken sleep count as a deadlock
+        continue;
+      }
+      g.stalls += 1;
+      let now = g.progress;
+      g.status[cur] = St::BlockedReal(now);
+      if g.trace.len() < 400 {
+        g.trace.push(format!("t{cur} stalled outside a schedule point (asleep in the kernel); the turn goes on"));
+      }
+      if others.is_empty() {
+        // every other unfinished thread is parked waiting for a lock too: nobody can move
+        g.deadlock = true;
+        let msg = format!("deadlock: t{cur} sleeps in the kernel outside any schedule point and no other thread can run, states {:?}", g.status);
+        g.violations.push(msg);
+        g.aborted = true;
+        g.current = NONE;
+        self.cv.notify_all();
+        break;
+      }
+      g.current = others[0];
+      g.progress += 1;
+      quiet_polls = 0;
+      self.cv.notify_all();
     }
     !g.aborted
   }
